@@ -52,7 +52,10 @@ def near_misses(rng, s):
            s.replace(parts[1], parts[1].strip() + '_', 1), s.replace(parts[2], '1__2', 1), s.replace(parts[0], '1e3', 1),
            s.replace(parts[3], ' nan', 1), s.replace(parts[1], '- 1', 1), s.replace(parts[0], '--1', 1),
            s.replace(parts[2], '1 2', 1), s.replace(parts[3], '.', 1), s.replace(parts[0], '_1', 1),
-           s + ' ,', ',' + s, '{"bbox": [' + s + ']}', 'a' + s + 'b']
+           s + ' ,', ',' + s, '{"bbox": [' + s + ']}', 'a' + s + 'b',
+           # blanks in the place of commas (numbers pasted from a table)
+           s.replace(',', ' ', 1), s.replace(',', ' '), s.replace(',', '\t'), ' '.join(p.strip() for p in parts),
+           ','.join(parts[:2]) + ' ' + ','.join(parts[2:])]
     return out
 
 
@@ -126,7 +129,8 @@ def run(ctx):
         for m in near_misses(rng, s):
             strings.append(('near_miss', m))
     for extra in ['1,2,3,4', '1.5 , -.2 , 3.,4', '', ',,,', '1,2,3,4,5', '1,2,3,4x', '0,0,0,0', '-0,-0.,-.0,0_0',
-                  '1\x1c,2,3,4', '1\xa0,2,3,4', '١,2,3,4']:
+                  '1\x1c,2,3,4', '1\xa0,2,3,4', '١,2,3,4',
+                  '0.6 10.6 2.4 12.4', '1\t2\t3\t4', '1,2 3,4']:
         strings.append(('fixed', extra))
     ascii_strings = [(k, s) for k, s in strings if all(ord(c) < 128 for c in s)]
     exprs = [f'(accepts {to_coq(codes(s))}, bounds_value {to_coq(codes(s))})' for _, s in ascii_strings]
